@@ -19,7 +19,8 @@ def expected_value(e, ainv):
     U, D = mp.power(up, a0), mp.power(dn, a0)
     lu, ld = mp.log(up), mp.log(dn)
     b = [U - 1, D - 1, lu * U, -ld * D, lu * lu * U, ld * ld * D]
-    coef = [sum(leaf.mpf(frac(ainv[i][j])) * b[j] for j in range(6)) for i in range(6)]
+    ai = ainv[str(frac(e["a0"]))]
+    coef = [sum(leaf.mpf(frac(ai[i][j])) * b[j] for j in range(6)) for i in range(6)]
     return 1 + sum(coef[i] * a ** (i + 1) for i in range(6))
 
 
@@ -39,7 +40,9 @@ def replay(pyhf, backend, precision, chunk, ainv, seed):
         hset = [[[[dn], [nom], [up]]], [[[up], [nom], [dn]]]]
         pyhf.set_backend(case["backend0"], precision=precision)
         get = pyhf.interpolators.get
-        obj = get(CODEKEY[code])(hset)
+        a0 = float(frac(case["a0"]))
+        kw = {"alpha0": a0} if code == 4 and a0 != 1.0 else {}
+        obj = get(CODEKEY[code])(hset, **kw)
         out["n"] += 1
         tags = [f"code{code}"]
         bad = False
@@ -54,8 +57,8 @@ def replay(pyhf, backend, precision, chunk, ainv, seed):
             aset = tl.astensor([al, [-a for a in al]])
             try:
                 got = tl.tolist(obj(aset))
-                fresh = tl.tolist(get(CODEKEY[code])(hset)(aset))
-                slow = tl.tolist(get(CODEKEY[code], do_tensorized_calc=False)(hset)(aset))
+                fresh = tl.tolist(get(CODEKEY[code])(hset, **kw)(aset))
+                slow = tl.tolist(get(CODEKEY[code], do_tensorized_calc=False)(hset, **kw)(aset))
             except Exception as e:  # noqa: BLE001
                 add(f"interpolator call failed after history: {type(e).__name__}: {e}", {"case": case, "step": si}, tags + ["evalfail"])
                 bad = True
@@ -86,13 +89,13 @@ def replay(pyhf, backend, precision, chunk, ainv, seed):
                 # floating-point neighbours of the breakpoints: continuity means neighbours stay close
                 if not bad:
                     pts = []
-                    for s0 in (-1.0, 0.0, 1.0):
+                    for s0 in (-a0, 0.0, a0):
                         pts += [math.nextafter(s0, -math.inf), s0, math.nextafter(s0, math.inf)]
                     pts += [-0.0, 5e-324, -5e-324]
                     if precision == "32b":
-                        pts = [-1.0 - 1.2e-7, -1.0, -1.0 + 6e-8, -1e-38, 0.0, 1e-38, 1.0 - 6e-8, 1.0, 1.0 + 1.2e-7, -0.0]
+                        pts = [-a0 * (1 + 1.2e-7), -a0, -a0 * (1 - 1.2e-7), -1e-38, 0.0, 1e-38, a0 * (1 - 1.2e-7), a0, a0 * (1 + 1.2e-7), -0.0]
                     try:
-                        res = tl.tolist(get(CODEKEY[code])(hset)(tl.astensor([pts, [-p for p in pts]])))
+                        res = tl.tolist(get(CODEKEY[code])(hset, **kw)(tl.astensor([pts, [-p for p in pts]])))
                     except Exception as e:  # noqa: BLE001
                         add(f"evaluation at breakpoint neighbours failed: {type(e).__name__}: {e}", det, tags)
                         bad = True
